@@ -741,6 +741,13 @@ Hnextread(int32 access_id, uint16 tag, uint16 ref, int origin)
             default: /* do nothing for other cases currently */
                 break;
         } /* end switch */
+
+        /* The special state of the element just left is gone.  Until another
+         * element is attached below this is an ordinary access record: if the
+         * search fails (e.g. there is no next element) the caller still ends
+         * the access, and must not be sent to the special layer again. */
+        access_rec->special      = 0;
+        access_rec->special_info = NULL;
     }
 
     if (origin == DF_START) { /* set up variables to start searching from beginning of file */
